@@ -61,9 +61,9 @@ def judge(R, it, res, cop_ans, first_ans, rand_ans):
     # --- Copeland: definition, Condorcet winner
     exact = V.exact_scores("copeland", 0, P, m)
     sc = [Fraction(x) for x in res["copeland"]]
-    if sum(sc) != 0:
+    if sum(sc) != 0 or any(abs(x) > max(m - 1, 0) for x in sc):
         # C12_copeland_zero_sum: holds for every profile; a one-sided comparison or a skipped pair breaks it on even splits
-        R.violation("property_violation", "Copeland scores sum to zero (every pair is counted once for and once against: C12_copeland_zero_sum)",
+        R.violation("property_violation", "Copeland scores sum to zero and lie within [-(m-1), m-1] (C12_copeland_zero_sum, C12_copeland_score_bounds)",
                     ENTRY + " Copeland.score", {"P": P}, impl_output=res["copeland"], oracle={"sum": fr(sum(sc)), "textbook": [fr(x) for x in exact]}, config=cfg)
         return
     if sc != exact:
